@@ -64,8 +64,12 @@ class RQKernel(Kernel):
 
     def forward(self, x1, x2, diag=False, **params):
         def postprocess_rq(dist_mat):
-            alpha = self.alpha
-            for _ in range(1, len(dist_mat.shape) - len(self.batch_shape)):
+            alpha = self.alpha  # *batch_shape x 1
+            # Give alpha one trailing dimension per non-batch dimension of dist_mat. (Counting dimensions relative to
+            # len(self.batch_shape) misaligns the batch dimensions of alpha when x1/x2 have more batch dimensions
+            # than the kernel.)
+            num_nonbatch_dims = (1 if diag else 2) + (1 if params.get("last_dim_is_batch", False) else 0)
+            for _ in range(1, num_nonbatch_dims):
                 alpha = alpha.unsqueeze(-1)
             return (1 + dist_mat.div(2 * alpha)).pow(-alpha)
 
